@@ -156,10 +156,23 @@ def cols(ctx, crate, E):
     S = Sym(E, fa)
     f = crate.fns[p]
     tup = None
+    order = [0, 1, 2, 3]          # slot k of the carrier holds (category, invoke, group, length)[order[k]]
+
+    def is_carrier(rv):
+        if not rv or rv["k"] != "agg" or len(rv.get("ops", [])) != 4:
+            return False
+        if rv.get("agg") == "tuple":
+            return True
+        # a small struct with the same four members (named, so the names decide the roles)
+        return rv.get("agg") == "adt" and not str(rv.get("adt", "")).startswith(("std::", "core::", "alloc::")) \
+            and {"invoke", "group", "length"} <= set(rv.get("fields") or [])
     for b, i, s in fa.stmts():
         rv = s.get("rv")
-        if rv and rv["k"] == "agg" and rv.get("agg") == "tuple" and len(rv["ops"]) == 4:
+        if is_carrier(rv):
             tup = [S.operand(o) for o in rv["ops"]]
+            if rv.get("agg") == "adt":
+                fl = list(rv["fields"])
+                order = [{"invoke": 1, "group": 2, "length": 3}.get(n, 0) for n in fl]
     if tup is None:
         raise EngineError("CHARCOLS: the (category, invoke, group, length) tuple was not found")
     # column indices a value depends on: constants used to index `cols` anywhere in its derivation.
@@ -189,8 +202,9 @@ def cols(ctx, crate, E):
     # walk MIR: for each slot operand collect index constants reachable through its origin chain
     for b, i, s in fa.stmts():
         rv = s.get("rv")
-        if rv and rv["k"] == "agg" and rv.get("agg") == "tuple" and len(rv["ops"]) == 4:
-            for k, o in enumerate(rv["ops"]):
+        if is_carrier(rv):
+            for k0, o in enumerate(rv["ops"]):
+                k = order[k0]
                 seen = set()
                 work = [o]
                 while work and len(seen) < 200:
@@ -261,7 +275,8 @@ def args(ctx, crate, E):
             if name not in pn:
                 raise EngineError("CHARARGS: CharInfo::new has no parameter `%s`" % name)
             a = got[pn.index(name)]
-            good = a.endswith("." + want) or ("." + want + ".") in a or a.endswith(want)
+            good = a.endswith("." + want) or ("." + want + ".") in a or a.endswith(want) or \
+                a.endswith("." + name) or ("." + name + ".") in a       # a named member of a small struct
             ok = ok and good
             detail.append("%s <- %s" % (name, a[-24:]))
         ctx.ob("CHARARGS", "from_reader|CharInfo::new|%d" % k, ok, fa.loc(b),
